@@ -743,6 +743,8 @@ def auto_family(prop, tier, seed, mc_cfgs, gen_runs, directed, extra_rule):
         found.update(f)
     if not rows:
         raise ToolFailure("vacuous: no behaviour generated")
+    # every directed schedule twice: the harness runs odd-numbered rows in the world where "missing" is ENOTDIR
+    drows = [r for r in drows for _ in (0, 1)]
     allrows = drows + rows
     import autotrace, shutil
     f = scratch_file("auto.ndjson")
